@@ -38,6 +38,10 @@ CLAIMED = {
    text="PARTIAL. Kernel-checked: the identification header round trip at the byte level for every channels 1..255, rate, bitrate triple and legal block-size pair (C05_ident); the comment header round trip (C05_comment); the window flags of consecutive blocks handed out by the encoder agree with their neighbours' block sizes for every envelope-search answer (C05_flags, C05_flags_untouched, on the analysis bookkeeping model tied call-by-call under C04). Decided per generated configuration (testing, labelled so): all three encoder headers and every audio packet go through the C decoder and through the Lean header/packet-header model (which must accept, with valid Huffman trees, and agree on codes, fields, window flags, sample counts); oracles: header fields equal the encoder's info, flags agree with neighbours, unmanaged packets are consumed to within their last byte, managed packets never run out of bits unless a hard maximum is set, samples finite.",
    note="Not proved: the set-up header packer/unpacker round trip (no packer model) and bit-exact consumption of floor/residue payloads (float-driven choices; observed on the real decoder over 31+ configurations x 9 signal classes x VBR/managed set-ups). Trusted: Lean kernel, harness, the c02 stream as tie for the header parser.",
    tech="Lean 4 proof (byte-level round trips, window-flag invariant) + per-configuration differential validation of headers and packets"),
+ "C11": dict(cat="proof", ref="§8 C11",
+   text="Kernel-checked on a provenance model of the decoder's overlap-add double buffer (every cell records which sample of which packet went into it; old buffer content is 'stale'): for all block-size pairs, every restart point and every window-flag sequence, each sample returned after packet k is exactly the specification's overlap of packet k-1's tail with packet k's head — a function of the two flags, k and the offset only (C11_local); the first packet after a restart returns nothing (C11_first_silent); a decode disturbed/restarted at packet j returns, from packet j+1 on, the same expressions as the undisturbed decode (C11_recover); the samples after packet k mention only packets k-1 and k (C11_window). The model is tied to lib/block.c bit-exactly: vorbis_synthesis_blockin is driven with marker blocks, and every returned sample is recomputed from the model's cell and the library's own window table with exact single-precision arithmetic (~10^5 cells per quick run, half-rate on/off, restarts). The property itself is then injected on real decodes: one packet dropped/duplicated/truncated/bit-flipped/decode restarted (with and without a fresh vorbis_block), ASan and heap-perturbed builds; outputs before j and from j+2 on must be bit-identical.",
+   note="That each packet's inverse-transform output depends on that packet and the set-up only (no hidden state in vorbis_block / look-ups / localstore) cannot be seen by the theorems; it is what the fault-injection part tests (it caught seeded mutant C11-1).",
+   tech="Lean 4 proof (provenance invariant by induction over packet sequences) + bit-exact correspondence of the overlap-add + fault enumeration on real decodes"),
 }
 
 NA_REASON = "not yet built in this round: model/theorems for this property are not in the tree yet (see DESIGN.md §8 for the plan)"
